@@ -73,7 +73,7 @@ def run(env, rep):
         "[12,739] / [776,1503] from the evaluated constants), generation uses the role's own scheme and verification tries both, and "
         "the digest returned is the one that was verified; R3: the packet-2 signature is HMAC(key = HMAC(key = packet-2 key, msg = "
         "peer digest), msg = first 1504 bytes of the outgoing packet) stored at [1504,1536) - checked as argument provenance of the "
-        "two HMAC calls; R4: without a digest the response is the received packet itself.  Not decided: that HMAC-SHA256 is "
+        "two HMAC calls; R4: without a digest the response is the received packet itself.  R5: the 32 digest bytes of the own packet 1 are stored in full at [offset, offset + 32).  Not decided: that HMAC-SHA256 is "
         "computed correctly (trusted crates hmac, sha2).")
     with open(SPEC) as f:
         spec = json.load(f)
@@ -282,6 +282,60 @@ def run(env, rep):
               "verification looks for the digest at the position of either scheme", "verification returns digests found by %s only" % (sorted(schemes) or "no scheme"), db.span)
     rep.check("C11.R2", "returned-digest-is-verified-digest", not bad and n_ok >= 2, "each Ok return hands back the digest whose HMAC matched (%d paths)" % n_ok,
               "; ".join(sorted(set(bad))[:2]) or "fewer than two Ok paths found", db.span)
+    # ------------------------------------------------------------------ R5 the digest is written into the own packet 1 in full
+    # all 32 bytes, at [offset, offset + 32): an indexed store packet[offset + i] := digest[i] whose i ranges over [0, 31], or one
+    # copy of 32 bytes to packet[offset..] - not a write that may stop early (a zip over a window that ends before the digest does)
+    gb = b["gen"]
+    git_ = ctx.interp(gb.key)
+    I.CUR_BODY[0] = gb
+    placed5, seen_store = False, 0
+    dlen = spec["digest_length"]
+    for bi in gb.rpo:
+        blk = gb.blocks[bi]
+        for si, st in enumerate(blk["stmts"]):
+            pl = st["place"]
+            pr = pl["p"]
+            if not (pr and isinstance(pr[-1], dict) and "ix" in pr[-1] and len(pr) >= 2 and isinstance(pr[-2], dict) and pr[-2].get("n") == "sent_p1"):
+                continue
+            S = git_.entry_states.get(bi)
+            if S is None:
+                continue
+            S = S.copy()
+            for j, s2 in enumerate(blk["stmts"][:si]):
+                git_.cur = (bi, j)
+                git_.transfer_stmt(S, s2)
+            idx = S.read((git_.L(pr[-1]["ix"]), ()))
+            if const_val(idx) is not None:
+                continue             # the version bytes
+            seen_store += 1
+            if isinstance(idx, tuple) and idx[0] == "bin" and idx[1] in ("Add", "AddW"):
+                for off_sv, i_sv in ((idx[3], idx[4]), (idx[4], idx[3])):
+                    di = S.dom(i_sv)
+                    do = S.dom(off_sv)
+                    # the other operand is the digest offset: one of the two schemes' values (a join of the role arms, so judged by its range)
+                    if di.lo == 0 and di.hi == dlen - 1 and const_val(off_sv) is None and do.lo >= 12 and do.hi <= spec["packet_size"] - dlen - 1:
+                        placed5 = True
+    if not placed5:
+        for bi in gb.rpo:
+            S = git_.exit_state(bi)
+            if S is None or placed5:
+                continue
+            for (root, proj), v in list(S.mem.items()):
+                if proj and proj[-1] == ("regions",) and len(proj) >= 2 and proj[-2][0] == "f" and proj[-2][2] == "sent_p1" and isinstance(v, tuple) and v[0] == "model" and v[1] == "regions":
+                    for start, ln, src in v[2]:
+                        ds = S.dom(start)
+                        lnc = const_val(ln)
+                        if lnc is None and isinstance(ln, tuple) and ln[0] == "bin" and ln[1] == "Sub" and isinstance(ln[3], tuple) and ln[3][0] == "bin" and ln[3][1] == "Add":
+                            # (start + 32) - start
+                            if ln[3][3] == ln[4]:
+                                lnc = const_val(ln[3][4])
+                            elif ln[3][4] == ln[4]:
+                                lnc = const_val(ln[3][3])
+                        if lnc == dlen and const_val(start) is None and ds.lo >= 12 and ds.hi <= spec["packet_size"] - dlen - 1:
+                            placed5 = True
+    rep.check("C11.R5", "own-digest-written-in-full", placed5, "the %d digest bytes are stored at [offset, offset + %d) of the own packet 1" % (dlen, dlen),
+              "generate_outbound_p0_and_p1 does not store the digest as %d bytes at packet[offset + i], i in [0, %d] (nor as one %d-byte copy to packet[offset..]): a write that can stop "
+              "early leaves a truncated digest for the offsets near the end of the window" % (dlen, dlen - 1, dlen), gb.span)
     # ------------------------------------------------------------------ R3 packet 2
     pb = b["p1"]
     rep.check("C11.R3", "packet2-signature", sig_ok and sig_n >= 2,
